@@ -369,7 +369,8 @@ def run(R):
     quick = R.tier == "quick"
     base_cfg = dict(nchans=2, nsamps=3, maxdelay=1, nbins=3, nints=2, nsubs=2, total=8, tsamp=0.5, period=1.5, accel=0.0)
     # the third configuration puts nbins*t*tsamp/period exactly on half-integers (rounding convention of the phase)
-    cfgs = [dict(base_cfg), dict(base_cfg, period=1.25, nchans=3, nsubs=2, nsamps=2), dict(base_cfg, nbins=2, tsamp=0.25, period=1.0, nchans=1, nsubs=1, maxdelay=0)]
+    cfgs = [dict(base_cfg), dict(base_cfg, period=1.25, nchans=3, nsubs=2, nsamps=2), dict(base_cfg, nbins=2, tsamp=0.25, period=1.0, nchans=1, nsubs=1, maxdelay=0),
+            dict(base_cfg, total=7), dict(base_cfg, nchans=1, nsubs=1, maxdelay=0, total=11, nints=3)]      # sub-integration length not an integer
     if not quick:
         cfgs += [dict(base_cfg, period=2.0, nints=1), dict(base_cfg, nchans=3, nsubs=2, nsamps=3, maxdelay=2, total=9, nints=2),
                  dict(base_cfg, nbins=2, tsamp=0.25, period=0.75), dict(base_cfg, nchans=1, nsubs=1, nsamps=4, maxdelay=0, total=10, nints=3)]
